@@ -220,6 +220,9 @@ func (c *Config) TLSForHost(hostname string) *tls.Config {
 			if host == "" {
 				host = hostname
 			}
+			if host == "" {
+				return nil, errors.New("mitm: neither SNI nor a fallback hostname provided, failed to build certificate")
+			}
 
 			return c.cert(host)
 		},
